@@ -46,6 +46,13 @@ type outChanReg struct {
 	ch   reflect.Value
 }
 
+// queuedFrame is a message waiting for the frame executor, with the connection
+// epoch it was read in.
+type queuedFrame struct {
+	buf   []byte
+	epoch uint64
+}
+
 type reqestHandler interface {
 	handle(ctx context.Context, req request, w func(func(io.Writer)), rpcError rpcErrFunc, done func(keepCtx bool), chOut chanOut)
 }
@@ -72,7 +79,7 @@ type wsConn struct {
 
 	readError chan error
 
-	frameExecQueue chan []byte
+	frameExecQueue chan queuedFrame
 
 	// outgoing messages
 	writeLk sync.Mutex
@@ -539,13 +546,14 @@ func (c *wsConn) handleResponse(frame frame) {
 	c.inflightLk.Unlock()
 }
 
-func (c *wsConn) handleCall(ctx context.Context, frame frame) {
+// handleCall starts the handler of a request that arrived in connection epoch
+// `epoch` (it may be executed later than that: frames wait in a queue).
+func (c *wsConn) handleCall(ctx context.Context, frame frame, epoch uint64) {
 	if c.handler == nil {
 		log.Error("handleCall on client with no reverse handler")
 		if frame.ID != nil {
 			// a request for a method this side does not have, like any other
 			// unknown method: the peer is waiting for an answer
-			epoch := atomic.LoadUint64(&c.connEpoch)
 			rpcError(func(cb func(io.Writer)) { c.nextWriter(epoch, cb) },
 				&request{Jsonrpc: frame.Jsonrpc, ID: frame.ID, Method: frame.Method},
 				rpcMethodNotFound, fmt.Errorf("method '%s' not found", frame.Method))
@@ -571,15 +579,20 @@ func (c *wsConn) handleCall(ctx context.Context, frame frame) {
 			cancel()
 		}
 	}
-	// the connection this request arrived on
-	epoch := atomic.LoadUint64(&c.connEpoch)
 	if frame.ID != nil {
 		nextWriter = func(cb func(io.Writer)) {
 			c.nextWriter(epoch, cb)
 		}
 
 		c.handlingLk.Lock()
-		c.handling[frame.ID] = cancel
+		if atomic.LoadUint64(&c.connEpoch) == epoch {
+			c.handling[frame.ID] = cancel
+		} else {
+			// a request of a connection that is gone, executed late: the peer that
+			// could cancel it is gone too, and its id may by now name a request of the
+			// current connection. Its connection ended: so does its context.
+			cancel()
+		}
 		c.handlingLk.Unlock()
 
 		done = func(keepctx bool) {
@@ -605,7 +618,7 @@ func (c *wsConn) handleCall(ctx context.Context, frame frame) {
 }
 
 // handleFrame handles all incoming messages (calls and responses)
-func (c *wsConn) handleFrame(ctx context.Context, frame frame) {
+func (c *wsConn) handleFrame(ctx context.Context, frame frame, epoch uint64) {
 	// Get message type by method name:
 	// "" - response
 	// "xrpc.*" - builtin
@@ -620,7 +633,7 @@ func (c *wsConn) handleFrame(ctx context.Context, frame frame) {
 	case chClose:
 		c.handleChanClose(frame)
 	default: // Remote call
-		c.handleCall(ctx, frame)
+		c.handleCall(ctx, frame, epoch)
 	}
 }
 
@@ -832,9 +845,13 @@ func (c *wsConn) readFrame(ctx context.Context, r io.Reader) {
 		return
 	}
 
+	// the connection this message was read from is still the current one: the
+	// next one is installed only after a read has failed
+	epoch := atomic.LoadUint64(&c.connEpoch)
+
 	vhook("reader.queue", c)
 	select {
-	case c.frameExecQueue <- buf:
+	case c.frameExecQueue <- queuedFrame{buf: buf, epoch: epoch}:
 	case <-c.exiting:
 		// the frame executor stops with the main loop; with a full queue this
 		// send would block for ever
@@ -853,9 +870,9 @@ func (c *wsConn) frameExecutor(ctx context.Context) {
 		select {
 		case <-ctx.Done():
 			return
-		case buf := <-c.frameExecQueue:
+		case qf := <-c.frameExecQueue:
 			var frame frame
-			if err := json.Unmarshal(buf, &frame); err != nil {
+			if err := json.Unmarshal(qf.buf, &frame); err != nil {
 				log.Warnw("failed to unmarshal frame", "error", err)
 				// todo send invalid request response
 				continue
@@ -869,7 +886,7 @@ func (c *wsConn) frameExecutor(ctx context.Context) {
 				continue
 			}
 
-			c.handleFrame(ctx, frame)
+			c.handleFrame(ctx, frame, qf.epoch)
 		}
 	}
 }
@@ -882,7 +899,7 @@ func (c *wsConn) handleWsConn(ctx context.Context) {
 
 	c.incoming = make(chan io.Reader)
 	c.readError = make(chan error, 1)
-	c.frameExecQueue = make(chan []byte, maxQueuedFrames)
+	c.frameExecQueue = make(chan queuedFrame, maxQueuedFrames)
 	c.inflight = map[interface{}]clientRequest{}
 	c.handling = map[interface{}]context.CancelFunc{}
 	c.chanHandlers = map[uint64]*chanHandler{}
